@@ -46,7 +46,7 @@ type Net struct {
 	pipes     []*Pipe
 	listeners map[string]*Listener
 	dial      map[string]*dialState
-	nextCuts  map[string][]Cut // cuts to apply to the next pipe dialed to addr
+	nextCuts  map[string][]pendingCut // cuts for the (skip+1)-th next pipe dialed to addr
 	DialLog   []DialEvent
 	FaultHook func(kind string, pipe int) // called (under the net lock) whenever a fault fires
 	Fired     FaultStats
@@ -61,7 +61,7 @@ type dialState struct {
 
 func New(s *simrt.Sched, cfg Cfg) *Net {
 	n := &Net{S: s, Cfg: cfg, rng: simrt.NewRNG(s.Seed).Sub("net"),
-		listeners: map[string]*Listener{}, dial: map[string]*dialState{}, nextCuts: map[string][]Cut{},
+		listeners: map[string]*Listener{}, dial: map[string]*dialState{}, nextCuts: map[string][]pendingCut{},
 		Fired: FaultStats{}, Probes: map[string]int{}}
 	s.AddSource(n)
 	return n
@@ -234,10 +234,18 @@ func (n *Net) newPipe(addr string, ws bool) *Pipe {
 	p.c2s, p.s2c = mk("c2s"), mk("s2c")
 	p.C = &Endpoint{pipe: p, side: "C", in: p.s2c, out: p.c2s, name: fmt.Sprintf("c%d:C", p.ID), closeC: make(chan struct{}), rdl: newDeadline(), wdl: newDeadline()}
 	p.S = &Endpoint{pipe: p, side: "S", in: p.c2s, out: p.s2c, name: fmt.Sprintf("c%d:S", p.ID), closeC: make(chan struct{}), rdl: newDeadline(), wdl: newDeadline()}
-	for _, c := range n.nextCuts[addr] {
-		p.Stream(c.Dir).addCut(c)
+	if ws {
+		var rest []pendingCut
+		for _, pc := range n.nextCuts[addr] {
+			if pc.skip == 0 {
+				p.Stream(pc.cut.Dir).addCut(pc.cut)
+			} else {
+				pc.skip--
+				rest = append(rest, pc)
+			}
+		}
+		n.nextCuts[addr] = rest
 	}
-	delete(n.nextCuts, addr)
 	n.pipes = append(n.pipes, p)
 	return p
 }
@@ -764,7 +772,7 @@ func (n *Net) Heal() {
 	for _, d := range n.dial {
 		*d = dialState{}
 	}
-	n.nextCuts = map[string][]Cut{}
+	n.nextCuts = map[string][]pendingCut{}
 	simrt.Rec("heal", "", "", 0)
 }
 
@@ -779,10 +787,18 @@ func (n *Net) PlanCut(pipe int, c Cut) {
 }
 
 // PlanCutNext registers a fault for the next connection dialed to addr.
-func (n *Net) PlanCutNext(addr string, c Cut) {
+func (n *Net) PlanCutNext(addr string, c Cut) { n.PlanCutNextK(addr, 0, c) }
+
+// PlanCutNextK registers a fault for the (skip+1)-th next WebSocket connection dialed to addr.
+func (n *Net) PlanCutNextK(addr string, skip int, c Cut) {
 	n.mu.Lock()
 	defer n.mu.Unlock()
-	n.nextCuts[addr] = append(n.nextCuts[addr], c)
+	n.nextCuts[addr] = append(n.nextCuts[addr], pendingCut{skip: skip, cut: c})
+}
+
+type pendingCut struct {
+	skip int
+	cut  Cut
 }
 
 func (n *Net) ds(addr string) *dialState {
